@@ -53,7 +53,8 @@ func WalkFiles(ctx context.Context, path string, watchPattern *regexp.Regexp, ou
 		if err != nil {
 			return nil
 		}
-		if info.IsDir() && skipdir.ShouldSkip(absPath) {
+		// Test the path relative to the root, so that the root directory itself is never skipped because of its own name.
+		if info.IsDir() && skipdir.ShouldSkip(path) {
 			return filepath.SkipDir
 		}
 		if !watchPattern.MatchString(absPath) {
